@@ -1,7 +1,7 @@
 """C09 - structure-exploiting kernels and prediction strategies equal their dense meaning.
 
 Spec: Structured.tla (Kronecker / index / LCM / grid index maps over whole small domains; exact rational Nystrom, SGPR, Titsias,
-RFF and WISKI algebra), Interp.tla (Interpolation.interpolate transcribed, exact over rational lattices).
+RFF and WISKI algebra; the access forms of every structured family; kernel-level and model-level histories of the grid kernels), Interp.tla (Interpolation.interpolate transcribed, exact over rational lattices).
 Replay: TLC's exact matrices / indices / weights / posteriors into the real kernels and strategies, then float64 sweeps of every
 structured kernel against its dense formula and of every kernel-specific prediction strategy against the default strategy on the
 same approximate matrix (checks/c09_dense.py)."""
@@ -28,7 +28,7 @@ def tla_set(items):
 
 
 def write_structured(workdir, name, part, *, instances=(), grid_sizes=(), order="lex", skikron="reversed", maxn=3, maxt=3, maxq=2, invariants=None,
-                     gsm_kind="fixed", gsm_depth=0, gsm_clear="always", gsm_wide=False):
+                     gsm_kind="fixed", gsm_depth=0, gsm_clear="always", gsm_wide=False, gp_depth=0, gp_tight=0, gp_outside=False, access_model="code"):
     os.makedirs(workdir, exist_ok=True)
     mod = "MC_Structured_" + name
     with open(os.path.join(workdir, mod + ".tla"), "w") as f:
@@ -36,9 +36,10 @@ def write_structured(workdir, name, part, *, instances=(), grid_sizes=(), order=
             mod, tla_set([tla(i) for i in instances]), tla_set([tla(list(s)) for s in grid_sizes])))
     cfg = os.path.join(workdir, mod + ".cfg")
     inv = invariants or {"kron": ["KronOK"], "index": ["IndexOK"], "grid": ["GridOK"], "ski": ["SKIKuuOK", "SKIReversalOK", "SKIOrderOK"],
-                         "sgpr": ["SgprOK"], "rff": ["RffOK"], "wiski": ["WiskiOK"], "gridsm": ["GsmOK"]}[part]
+                         "sgpr": ["SgprOK"], "rff": ["RffOK"], "wiski": ["WiskiOK"], "gridsm": ["GsmOK"], "gridpred": ["GpOK", "GpCoverOK"], "access": ["AccessOK"]}[part]
     tlc.write_cfg(cfg, spec="Spec", constants={"Part": part, "Instances": "<- InstDef", "GridSizes": "<- GridDef", "Order": order, "SkiKron": skikron,
-                                                "MaxN": maxn, "MaxT": maxt, "MaxQ": maxq, "GsmKind": gsm_kind, "GsmDepth": gsm_depth, "GsmClear": gsm_clear, "GsmWide": gsm_wide}, invariants=inv)
+                                                "MaxN": maxn, "MaxT": maxt, "MaxQ": maxq, "GsmKind": gsm_kind, "GsmDepth": gsm_depth, "GsmClear": gsm_clear, "GsmWide": gsm_wide,
+                                                "GpDepth": gp_depth, "GpTight": gp_tight, "GpOutside": gp_outside, "AccessModel": access_model}, invariants=inv)
     return os.path.join(workdir, mod + ".tla"), cfg
 
 
@@ -436,6 +437,29 @@ def _l1_sgpr(torch, gpytorch, c):
     wc = torch.tensor([[float(frac(v)) for v in row] for row in exp["cov"]], dtype=D)
     n = len(inst["y"])
     params = (X,) if needs else ()
+
+    def kernel_forms(mode, x, want, where):
+        """the KERNEL on x under every access form of Structured.tla part "access" against TLC's exact matrix (spec: kxtrain / kxeval / kseval)"""
+        wantM = torch.tensor([[float(frac(v)) for v in row] for row in want], dtype=D)
+        kern.train(mode == "train")
+        for form in dense.ACCESS_FORMS:
+            with torch.no_grad(), gpytorch.settings.sgpr_diagonal_correction(corr):
+                ok, got = core.guarded(lambda: dense.read_form(torch, gpytorch, kern, x, x, form))
+            sg = "C09/exact/sgpr/kernel/%s-%s/%s" % (mode, "corr" if corr else "nocorr", form)
+            if not ok:
+                dense.fail(res, sg + "/raises", "%s: InducingPointKernel in %s mode on the %s, read as %s: %s" % (desc, mode, where, form, got))
+                continue
+            ok, why = core.close(got, dense.project_form(torch, gpytorch, wantM, form), 1e-9, 1e-10)
+            if not ok:
+                dense.fail(res, sg, "%s: InducingPointKernel in %s mode on the %s, read as %s: %s, the exact %s of Kxz Kzz^-1 Kzx%s is %s: %s" % (
+                    desc, mode, where, form, got.tolist(), "matrix" if form == "full" else "diagonal",
+                    " + diag(Kxx - Qxx)" if (corr and mode == "eval") else " (no diagonal correction)", [[str(frac(v)) for v in row] for row in want], why))
+    if nk == "homo":
+        kernel_forms("train", X, exp["kxtrain"], "training inputs")
+        kernel_forms("eval", X, exp["kxeval"], "training inputs")
+        kernel_forms("eval", Xs, exp["kseval"], "test inputs")
+        kern.train(True)
+        res["gap"] = float(max([frac(v) for v in exp["gap"]] + [frac(v) for v in exp["gaps"]]))
     if not corr:
         # training objective * N against the collapsed bound assembled from TLC's exact pieces (tr = sum_p gap_p / noise_p)
         bound = -0.5 * (float(frac(exp["quad"])) + math.log(float(frac(exp["det"]))) + n * math.log(2 * math.pi)) - float(frac(exp["tr"])) / 2
@@ -601,6 +625,12 @@ def run(ck):
                "matrix, indices, weights, posterior and bound pieces; grid histories = every behaviour of Structured.tla part gridsm (evaluate / update_grid / "
                "load_state_dict / re-laying of a data-dependent grid / train-eval switches, up to the stated depth) that ends with an evaluation, replayed into a real "
                "GridInterpolationKernel / GridKernel and compared at the last step with W K_UU W^T of the CURRENT grid and with a fresh kernel on that grid; "
+               "grid predictions = every behaviour of part gridpred (model-level predictions of a KISS-GP exact GP on a data-driven grid, the test extent in every position "
+               "relative to the training extent on either side: well inside / a fraction of a cell inside / equal / outside; strategy resets) that ends with a prediction, replayed "
+               "into a real ExactGP (d, fast_pred_var, use_toeplitz, ScaleKernel assigned so that every combination occurs for every last position) and compared at the last step with "
+               "the dense conditional of covar_module(cat(train, test)).to_dense(); access forms = every state of part access (10 structured kernel families x train/eval x the "
+               "setting the family reads x x1 is x2 or not x 5 ways of reading the kernel), each read from a real kernel and compared with the projection of the dense formula; the "
+               "exact SGPR instances also read the InducingPointKernel itself in every form and mode against TLC's exact Nystrom (+ correction) matrix; "
                "seeded float grids / targets for interpolate() (sum, nodes, quadratics); float cells = seeded "
                "instances of every structured kernel against its dense formula, "
                "of every kernel-specific prediction strategy x settings cell (SGPR also x noise model) against the default strategy on the same approximate matrix, and of the SGPR "
@@ -632,6 +662,15 @@ def run(ck):
         "grid_bounds stale and are not part of the machine; evaluations covered by the current grid use data 2% inside the range the grid was fitted to (the code "
         "compares against bounds recomputed in floating point); the three data ranges / grids have pairwise different spacings (a shifted grid with the same "
         "spacing has the same K_UU for a stationary kernel); d and use_toeplitz are assigned round-robin to the histories (thorough: all four combinations for depth < 4)",
+        "access forms: a kernel denotes ONE matrix per (mode, settings); diag=True, the diagonal of the lazily evaluated kernel, the diagonal of the evaluated operator and "
+        "the variance of a MultivariateNormal holding the lazy kernel (rounded up to settings.min_variance) are its diagonal.  For the inducing-point kernel that matrix is "
+        "Kxz Kzz^-1 Kzx, + diag(Kxx - Qxx) exactly when (eval mode, sgpr_diagonal_correction on, x1 equal to x2); in training mode x1 != x2 is rejected (documented) and not a case; "
+        "with diag=True and x1 != x2 (same number of points) the forms denote the diagonal of the cross matrix",
+        "grid predictions: the position classes are realised as: 'in' 15-40%% of the training extent away from the extreme, 'sl' one of %s grid cells inside it "
+        "(cell = extent / (grid_size - 4.02)), 'eq' exactly the training extreme, 'out' 8-28%% outside; in 2-D the second dimension takes the same pair of positions with the "
+        "sides exchanged.  Histories with a test extent outside the training extent since the last strategy reset are the class of known finding "
+        "C03/ext/gridi/strategy-kept-across-update_grid (the data-driven grid moves under the kept strategy; decided by C03): they are replayed and counted in "
+        "coverage.gridpred_outside_class but are not a verdict of this check" % (dense.GP_SLIVER,),
         "'converges to the base kernel as the grid is refined' is NOT decided: only a monotone error table on three grid sizes",
         "the code-shaped model follows the code's flattening of multi-indices in interpolate() (detected: %s) and its Kronecker order of K_uu in interpolation mode (detected: %s); verdicts come from the property-level clauses only" % (order, skikron)]
     wd = os.path.join(tlc.BUILD, PID)
@@ -664,6 +703,15 @@ def run(ck):
     for kind in ("fixed", "dyn"):       # the invariant is not vacuous: a kernel whose update_grid keeps K_UU must violate it
         job(write_structured(wd, "gridsm_stale_" + kind, "gridsm", gsm_kind=kind, gsm_depth=3, gsm_clear="noninterp"), "gridsm_stale_" + kind, workers=1)
     job(write_structured(wd, "rff", "rff", instances=gen_rff(rnd, 600 if thorough else 80)), "rff")
+    # the access forms of every structured family; the model of a diag=True shortcut that skips the settings must violate AccessOK
+    job(write_structured(wd, "access", "access"), "access", workers=1)
+    job(write_structured(wd, "access_shortcut", "access", access_model="shortcut"), "access_shortcut", workers=1)
+    # model-level predictions on a data-driven grid: GpOK over the histories without a test extent outside the training extent since the last
+    # strategy reset (GpAllOK, all histories, is violated by the model: known finding C03/ext/gridi); a kernel whose tight bounds lie inside
+    # the fitted extent must violate GpOK
+    gp_depth = 3 if thorough else 2
+    job(write_structured(wd, "gridpred", "gridpred", gp_depth=gp_depth, gp_outside=True), "gridpred", workers=1)
+    job(write_structured(wd, "gridpred_tight", "gridpred", gp_depth=2, gp_tight=2, gp_outside=False), "gridpred_tight", workers=1)
     one, two = interp_grids(thorough)
     job(write_interp(wd, "1d", one, order), "interp1d")
     for b in range(0, len(two), 2):
@@ -694,6 +742,14 @@ def run(ck):
             if not (r.violation and r.violation["name"] == "GsmOK"):
                 ck.vacuous("GsmOK holds for a grid kernel whose update_grid keeps the cached K_UU (%s): the invariant does not see stale caches" % lab)
             continue
+        if lab == "access_shortcut":
+            if not (r.violation and r.violation["name"] == "AccessOK"):
+                ck.vacuous("AccessOK holds for a kernel whose diag=True path returns the base diagonal whatever sgpr_diagonal_correction says")
+            continue
+        if lab == "gridpred_tight":
+            if not (r.violation and r.violation["name"] == "GpOK"):
+                ck.vacuous("GpOK holds for a kernel that re-lays its data-driven grid for test inputs a fraction of a cell inside the training extent")
+            continue
         if r.violation:
             predicted[lab] = r.violation["name"]
             import re
@@ -710,6 +766,8 @@ def run(ck):
     # ---------------- exact replays ----------------
     l1 = []
     gsm = []
+    acc = []
+    gpr = []
     for lab, r in rs.items():
         part = "sgpr" if lab.startswith("sgpr") else lab
         if lab.startswith("gridsm_") and not lab.startswith("gridsm_stale_") and lab not in predicted:
@@ -724,6 +782,41 @@ def run(ck):
                 ck.vacuous("no gridsm history in which the data-dependent grid is re-laid after the first call")
             if kind != "dyn" and not any(st["a"] in ("update", "load") for s in sts for st in s["out"]):
                 ck.vacuous("no gridsm history with update_grid / load_state_dict (%s)" % kind)
+            continue
+        if lab == "access" and lab not in predicted:
+            groups = {}
+            for s in r.states():
+                cc, oo = s["c"], s["out"]
+                gk = (cc["fam"], cc["mode"], bool(cc["on"]), bool(cc["same"]))
+                groups.setdefault(gk, dict(fam=cc["fam"], mode=cc["mode"], on=bool(cc["on"]), same=bool(cc["same"]), setting=oo["setting"], forms=[]))["forms"].append(
+                    dict(form=cc["form"], proj=oo["proj"], corrected=bool(oo["corrected"]), route=oo["route"]))
+            for gk in sorted(groups):
+                groups[gk]["forms"].sort(key=lambda f: f["form"])
+                for rep in range(3 if thorough else 1):
+                    acc.append(dict(groups[gk], seed=ck.seed * 100019 + 31 * len(acc) + 7))
+            if not any(f["corrected"] for a_ in acc for f in a_["forms"]) or not any(not f["corrected"] and a_["mode"] == "eval" and not a_["on"] and f["form"] != "full"
+                                                                                 for a_ in acc if a_["fam"] == "nystrom" for f in a_["forms"]):
+                ck.vacuous("the access cases do not contain a diagonal form of the inducing-point kernel in eval mode with and without the diagonal correction")
+            continue
+        if lab == "gridpred" and lab not in predicted:
+            sts = [s for s in r.states() if len(s["out"]) and s["out"][-1]["a"] == "predict"]
+            sts.sort(key=lambda s: repr(s["out"]))
+            per_last = {}
+            n_dirty = 0
+            for s in sts:
+                hist = _plain(s["out"])
+                if not hist[-1]["clean"]:          # the outside class is not a verdict of this check: a sample of it
+                    n_dirty += 1
+                    if len(hist) > 1 and n_dirty % (6 if not thorough else 12):
+                        continue
+                k = per_last[tuple(hist[-1]["pos"])] = per_last.get(tuple(hist[-1]["pos"]), -1) + 1      # every (d, fast_pred_var, use_toeplitz, scale) per last position
+                for combo in (range(16) if (thorough and len(hist) == 1) else [k % 16]):
+                    gpr.append(dict(d=1 + combo % 2, fpv=(combo // 2) % 2, toep=(combo // 4) % 2, scale=(combo // 8) % 2, hist=hist, seed=ck.seed * 100043 + len(gpr)))
+            # what the model says about the histories outside GpOK's scope (GpAllOK, stated in the spec, is not checked by TLC: it is violated by design)
+            ck.extra["gridpred_model_predicts_blocks_on_different_grids_when_test_outside_training_extent (known finding C03/ext/gridi)"] = any(
+                not e["clean"] and not (e["gs"] == e["gtt"] == e["gtx"] == e["gref"]) for s in sts for e in s["out"] if e["a"] == "predict")
+            if not any(h["hist"][-1]["clean"] and "sl" in h["hist"][-1]["pos"] for h in gpr):
+                ck.vacuous("no model-level prediction with a test extent a fraction of a cell inside the training extent")
             continue
         if part not in ("kron", "index", "grid", "sgpr") or lab in predicted:
             continue
@@ -759,6 +852,32 @@ def run(ck):
     rg = core.pmap(dense.gridsm_worker, chunks(gsm, 25), chunksize=1)
     ck.absorb(rg)
     _tick("gridsm replays")
+    rnd.shuffle(acc)
+    ra = core.pmap(dense.access_worker, chunks(acc, 6), chunksize=1)
+    ck.absorb(ra)
+    ck.section("access_forms", kernel_instances=len(acc), cells=len(ra), forms=len(dense.ACCESS_FORMS), families=len({a_["fam"] for a_ in acc}),
+               sgpr_exact_instances_with_positive_gap=sum(1 for r in results if r.get("gap", 0) > 0))
+    if not any(r.get("gap", 0) > 0 and not r["case"]["c"]["corr"] for r in results):
+        ck.vacuous("no exact SGPR instance with Kxx - Qxx > 0 and the diagonal correction off: the diagonal forms cannot tell Nystrom from the base kernel")
+    rnd.shuffle(gpr)
+    rp = core.pmap(dense.gridpred_worker, chunks(gpr, 12), chunksize=1)
+    ck.absorb(rp)
+    _tick("access + gridpred replays")
+    outside = [r for r in rp if not r.get("clean", True)]
+    ck.section("grid_predictions", histories=len(gpr), depth=gp_depth, inside_class=len(rp) - len(outside), outside_class_not_a_verdict=len(outside),
+               outside_class_deviating=sum(1 for r in outside if r.get("outside_deviates")))
+    ck.extra["gridpred_outside_class"] = dict(
+        what="predictions whose test inputs stick out of the training extent (or follow such a prediction without a strategy reset): the data-driven grid "
+             "moves under the kept prediction strategy = known finding C03/ext/gridi/strategy-kept-across-update_grid (decided by C03); evaluated, recorded, not a verdict of C09 "
+             "(VERIF_C09_OUTSIDE=violation turns them into violations C09/gridpred/test-outside-training-extent/*)",
+        cells=len(outside), deviating=sum(1 for r in outside if r.get("outside_deviates")), example=next((r["outside_detail"] for r in outside if r.get("outside_deviates")), None))
+    worst_gp = {}
+    for r in rp:
+        if r.get("clean", True):
+            for what, e in (r.get("errs") or {}).items():
+                key = "fpv%d/%s" % (r["case"]["fpv"], what)
+                worst_gp[key] = max(worst_gp.get(key, 0.0), e)
+    ck.extra["gridpred_inside_max_error_relative_to_prior_scale"] = {k: float("%.3g" % v) for k, v in sorted(worst_gp.items())}
     ck.section("grid_histories", histories=len(gsm), depth=gsm_depth, **{k: sum(1 for c in gsm if c["kind"] == k) for k in GSM_KINDS})
     ck.section("exact", kron=sum(1 for c in l1 if c["part"] == "kron"), index=sum(1 for c in l1 if c["part"] == "index"), grid=sum(1 for c in l1 if c["part"] == "grid"),
                sgpr=sum(1 for c in l1 if c["part"] == "sgpr"), interpolation_lattice_targets=n_lattice, interpolation_grids=len(interp_items))
@@ -766,6 +885,9 @@ def run(ck):
     ck.extra["domains_covered_completely"] = dict(kron="n, m <= 3 points, t <= 3 tasks, rank 0..t, 1..2 LCM terms", index="every task-index vector of length <= 3 x <= 2, t <= 3, rank 0..t",
                          grid="every grid shape with 1..3 dimensions of 2..4 points (3-D quick: 2..3), use_toeplitz on/off",
                          interp="every target of the step-1/4 lattice over %d 1-D and %d 2-D integer grids" % (len(one), len(two)),
+                         access="every (family, mode, setting value, x1 is x2, form) of Structured.tla AccessCases",
+                         gridpred="every history of length <= %d over {predict with (lower, upper) test-extent positions in {in, sl, eq, out}^2, train();eval()} "
+                                  "(histories after a test extent outside the training extent: a sample)" % gp_depth,
                          gridsm="every history of length <= %d over {evaluate (x1 is x2 / x1 != x2; three data ranges: first, covering, disjoint), update_grid(2 grids), "
                                 "load_state_dict, train(), eval()} from both initial modes, for GridInterpolationKernel with and without grid_bounds and GridKernel" % gsm_depth)
     # ---------------- float cells ----------------
@@ -827,6 +949,10 @@ def replay(rep):
         res = dense.refine_worker(dict(cases=[case]))
     elif sec == "gridsm":
         res = dense.gridsm_worker(dict(cases=[case]))
+    elif sec == "access":
+        res = dense.access_worker(dict(cases=[case]))
+    elif sec == "gridpred":
+        res = dense.gridpred_worker(dict(cases=[case]))
     else:
         raise core.Machinery("unknown replay section %r" % sec)
     bad = [r for r in res if not r.get("ok", True) or r.get("machinery")]
